@@ -116,6 +116,8 @@ def new_run_for(prop, rng, tier):
             'set_assoc_extras': 0, 'legacy': 0, 'neo_ingest': 0, 'neo_import': 0,
             'neo_ingest_graph': 0, 'add_again': rng.choice([0, 1]), 'reload_old': 0,
             'stale_twin': rng.choice([0, 1]) if prop in ('C05', 'C06') else 0,
+            # the language graph is regenerated while models built on it are in use
+            'lg_regen': rng.choice([0, 0, 1]) if prop in ('C18', 'C19', 'C07') else 0,
         },
     }
     cfg['max_assets'] = 8
@@ -135,6 +137,7 @@ def new_run_for(prop, rng, tier):
         cfg['max_assocs'] = rng.choice([10, 16, 24])
     if prop == 'C06':
         cfg['p_invalid'] = rng.choice([0.3, 0.5])
+        cfg['w']['foreign'] = rng.choice([0, 1, 1])
     if prop == 'C19':
         cfg['w']['neo_ingest'] = rng.choice([2, 3])
         cfg['w']['neo_import'] = rng.choice([2, 3])
@@ -528,6 +531,23 @@ class ModelWorld(BaseWorld):
                 clause = clause or f'{P}.backrefs'
             self.fail(clause, f'after {where}: model differs from the reference model\n'
                       + _obs_diff(exp, got))
+        # a caller that edits what a getter handed out does not edit the model
+        self._scribbles = getattr(self, '_scribbles', 0) + 1
+        if self._scribbles % 3 == 0 and exp['neighbours']:
+            done = 0
+            for a in list(model.assets):
+                for f in self.L.all_field_names():
+                    r = call(model.get_associated_assets_by_field_name, a, f)
+                    if not r.raised and r.value and hasattr(r.value, 'clear'):
+                        call(r.value.clear)
+                        done += 1
+            if done:
+                self.count('probe:lists_handed_out_by_getters_edited')
+                o2 = call(observe_model, model, self.L)
+                if o2.raised or normalise_obs(o2.value) != exp:
+                    self.fail(f'{P}.neighbours', f'after {where}: emptying the lists returned by '
+                              f'get_associated_assets_by_field_name changed the model\n'
+                              + ('' if o2.raised else _obs_diff(exp, normalise_obs(o2.value))))
         # uniqueness (also implied by the reference, stated separately for the message)
         ids = [a['id'] for a in got['assets']]
         names = [a['name'] for a in got['assets']]
@@ -668,7 +688,7 @@ class ModelWorld(BaseWorld):
         elif r < 0.45 + 0.3 * self.cfg['p_reuse'] and self.freed_ids[mi]:
             aid = self.freed_ids[mi][-1] if rng.random() < 0.7 else rng.choice(self.freed_ids[mi])
         elif r < 0.75:
-            aid = rng.choice([0, 0, -1, -7, 3, 5, 10, 12, 100])
+            aid = rng.choice([0, 0, -1, -7, 3, 5, 10, 12, 100, 6772009123833071681])
         elif r < 0.75 + p_inv * 0.5 and live_ids:
             aid = rng.choice(live_ids)                # in use: must be refused
         elif r < 0.75 + p_inv * 0.7:
@@ -737,6 +757,21 @@ class ModelWorld(BaseWorld):
         a = ref.assets[h]
         return not any(ref.assets[x].id == a.id and ref.assets[x].name == a.name
                        for x in ref.order)
+
+    def gen_lg_regen(self, rng, mi, ref):
+        return {'op': 'lg_regen'}
+
+    def do_lg_regen(self, op, mi, model, ref):
+        # something is looked up first (indexes, if there are any, get built), then the
+        # language graph is regenerated; loaders and importers use it afterwards
+        for t in self.L.order[:3]:
+            call(self.lg.get_asset_by_name, t)
+        r = call(self.lg.regenerate_graph)
+        if r.raised:
+            raise SetupRejected('langgraph_regen:' + r.exc_name())
+        self.count('probe:language_graph_regenerated_mid_run')
+        self.check_model(mi, where='LanguageGraph.regenerate_graph()')
+        return 'ok'
 
     def gen_stale_twin(self, rng, mi, ref):
         """A handle somebody kept: an object is removed, a new object with the same content
@@ -984,7 +1019,8 @@ class ModelWorld(BaseWorld):
             how = 'process'
         return {'op': 'restart', 'fmt': fmt, 'reuse': rng.random() < 0.4, 'how': how,
                 'fault': self._gen_fault(rng),
-                'hashseed': rng.choice([1, 2, 7, 99, 12345])}
+                'hashseed': rng.choice([1, 2, 7, 99, 12345]),
+                'share_steps': rng.random() < 0.4}
 
     def gen_legacy(self, rng, mi, ref):
         ids = [ref.assets[h].id for h in ref.order]
@@ -1039,10 +1075,16 @@ class ModelWorld(BaseWorld):
     def gen_foreign(self, rng, mi, ref):
         ids = [ref.assets[h].id for h in ref.order]
         rng.shuffle(ids)
-        return {'op': 'foreign', 'fmt': rng.choice(['json', 'json', 'yml']),
-                'order': ids, 'str_keys': rng.random() < 0.5,
-                'shorthand': rng.random() < 0.6, 'scalar_targets': rng.random() < 0.4,
-                'extras_first': rng.random() < 0.5, 'how': 'model'}
+        op = {'op': 'foreign', 'fmt': rng.choice(['json', 'json', 'yml']),
+              'order': ids, 'str_keys': rng.random() < 0.5,
+              'shorthand': rng.random() < 0.6, 'scalar_targets': rng.random() < 0.4,
+              'extras_first': rng.random() < 0.5, 'how': 'model'}
+        if self.prop == 'C06' and ref.assoc_order and rng.random() < 0.7:
+            # the file lists one link twice (a second entry that repeats a pair of an earlier
+            # one): what add_association refuses must not get in through a file either
+            op['invalid'] = 'dup_link'
+            op['k'] = rng.randrange(100)
+        return op
 
     # ------------------------------------------------------------- execution
     def apply(self, op):
@@ -1692,6 +1734,19 @@ class ModelWorld(BaseWorld):
         if fault and fault['phase'] == 'save':
             plan = faults.FaultPlan(fault['kind'], fault['at'], fault.get('after', 0), 'w')
         old_size = os.path.getsize(path) if os.path.exists(path) else 0
+        if op.get('share_steps') and not fault:
+            # the caller built two entry points from one list of steps: the attacker holds
+            # the same list object twice (same content as before; a YAML writer turns that
+            # into an anchor and an alias)
+            for at in model.attackers:
+                eps = list(at.entry_points)
+                for j in range(1, len(eps)):
+                    for i in range(j):
+                        if list(eps[i][1]) == list(eps[j][1]) and eps[i][1] is not eps[j][1]:
+                            eps[j] = (eps[j][0], eps[i][1])
+                            self.count('probe:one_step_list_shared_by_two_entry_points')
+                            break
+                at.entry_points = eps
         with faults.patched_open([fu], plan):
             o = call(model.save_to_file, path)
         if plan is not None and plan.fired:
@@ -1835,6 +1890,11 @@ class ModelWorld(BaseWorld):
                             if len(ids) == 1:
                                 v[f] = ids[0]
             assocs.append(e)
+        if op.get('invalid') == 'dup_link' and assocs:
+            e0 = copy.deepcopy(assocs[op.get('k', 0) % len(assocs)])
+            t = next(k for k in e0 if k != 'extras')
+            extra = {t: {f: (v if not isinstance(v, list) else v[:1]) for f, v in e0[t].items()}}
+            assocs.append(extra)
         attackers = {}
         for aid, a in view['attackers'].items():
             attackers[key(aid)] = {'name': a['name'], 'entry_points': {
@@ -1852,6 +1912,14 @@ class ModelWorld(BaseWorld):
         where = f'load of a hand-written {ext} file (asset order {order}, ' \
                 f'shorthand={used_shorthand})'
         o = call(self.Model.load_from_file, path, self.factory)
+        if op.get('invalid') == 'dup_link' and assocs:
+            self.count('fault:file_that_lists_one_link_twice')
+            self.count('oracle:C06.rejected')
+            if not o.raised:
+                self.fail('C06.rejected', f'{where}: the file lists the link {extra} twice and was '
+                                          f'loaded; the model holds {len(o.value.associations)} associations')
+            self.key_events += self.prop == 'C06'
+            return 'rejected'
         self.count('oracle:C07.foreign_file')
         if o.raised:
             self.fail('C07.foreign_file', f'{where} raised {o.exc!r}')
